@@ -16,7 +16,7 @@ def render (segs : List Seg) (outs : List SegOut) (hs : List Hit) : Json :=
     let sc : Float := match outs[si]? with
       | some o => (match o.fl.lookup d with | some (some s) => s | _ => 0.0)
       | none => 0.0
-    Json.mkObj [("id", id), ("score", fl sc), ("seg", si), ("doc", d)]).toArray
+    Json.mkObj [("id", id), ("score", fl sc), ("bits", sc.toBits.toNat), ("seg", si), ("doc", d)]).toArray
 
 /-- `{"op":"search", …case…, "limit":n, "bmw_block_size":n|null}` →
 `{"bm25":[…],"wand":[…],"bmw":[…], flags…}` -/
@@ -34,10 +34,10 @@ def handle (req : Json) : Except String Json := do
     -- monitored hypotheses / refinement, evaluated on this concrete instance
     let boundsOk := ins.all boundsOk
     let blockOk := ins.all blockBoundsOk
-    let refines := ins.all fun s =>
-      s.scan || wandLoop k false s.sc s.terms == wandRule k s.sc (ubsum s.terms) s.docs
-    let repaired := ins.all fun s =>
-      s.scan || wandRule k s.sc (blockSum s.terms) s.docs == brute k s
+    let refines (blk : Bool) := ins.all fun s =>
+      s.scan || wandLoop k blk s.hook s.sc s.terms ==
+        pruneRule k blk s.hook s.sc (ubsum s.terms) (blockSum s.terms) s.docs
+    let lr (st : Strategy) := render c.segs outs (legacySearch st k limit ins)
     let cands : Nat := (ins.map (·.fin.length)).foldl (· + ·) 0
     let maxPost : Nat := (ins.map fun s => (s.terms.map (·.posts.length)).foldl max 0).foldl max 0
     return Json.mkObj [
@@ -45,9 +45,11 @@ def handle (req : Json) : Except String Json := do
       ("hook", c.plan.tree.custom),
       ("scan", (qualified c.plan).isEmpty),
       ("bounds_ok", boundsOk), ("valid_bounds", ins.all fun s => validBounds s.terms), ("wf", ins.all fun s => s.scan || s.wf), ("block_bounds_ok", blockOk),
-      ("refines", refines), ("repaired_bmw_eq_brute", repaired),
-      ("knife_wand", ins.any (fun s => !s.scan && knife k false s)),
-      ("knife_bmw", ins.any (fun s => !s.scan && knife k true s)),
+      ("refines_wand", refines false), ("refines_bmw", refines true),
+      ("blocks_ok", ins.all fun s => s.terms.all Term.blocksOk),
+      ("seg_ok_wand", ins.all (segOk .wand)), ("seg_ok_bmw", ins.all (segOk .bmw)),
+      ("valid_block_bounds", ins.all fun s => validBlockBounds s.terms),
+      ("legacy_wand", lr .wand), ("legacy_bmw", lr .bmw),
       ("negative", outs.any (·.neg)),
       ("leaf_count", c.plan.leafCount),
       ("candidates", cands),
